@@ -30,7 +30,7 @@ VerifierLists(n) ==
   {Ident(n)} \cup {Swap(n, a, b) : a \in 1..n, b \in 1..n} \cup (IF n > 0 THEN {Rot(n), [i \in 1..n |-> 1], SubSeq(Ident(n), 1, n - 1)} ELSE {})
   \cup {Ident(n) \o <<1>>, Ident(n) \o <<n + 1>>}
 \* corruption of slot i: "" none, "garbage", "empty", "copy" (overwrite with the next slot's signature)
-Corruptions(n) == [1..n -> {"", "garbage", "empty", "copy"}]
+Corruptions(n) == [1..n -> {"", "garbage", "empty", "emptynonnil", "copy"}]
 
 CorruptSteps(obj, n, c) ==
   LET RECURSIVE go(_)
@@ -38,6 +38,7 @@ CorruptSteps(obj, n, c) ==
                ELSE (CASE c[i] = "" -> <<>>
                        [] c[i] = "garbage" -> <<[op |-> "setsig", obj |-> obj, slot |-> i - 1, sig |-> <<1, 2, 3>>]>>
                        [] c[i] = "empty" -> <<[op |-> "setsig", obj |-> obj, slot |-> i - 1, sig |-> <<>>]>>
+                       [] c[i] = "emptynonnil" -> <<[op |-> "setsig", obj |-> obj, slot |-> i - 1, sig |-> <<>>, nonnil |-> TRUE]>>
                        [] c[i] = "copy" -> <<[op |-> "setsig", obj |-> obj, slot |-> i - 1, fromslot |-> (i % n)]>>) \o go(i + 1)
   IN go(1)
 
@@ -48,7 +49,8 @@ Prog(n, vl, c, decoded) ==
      [op |-> "marshal", obj |-> "m", buf |-> "b"] >>
   \o (IF decoded THEN <<[op |-> "unmarshal", obj |-> "m2", kind |-> "sign", buf |-> "b"]>> ELSE <<>>)
   \o CorruptSteps(obj, n, c)
-  \o << [op |-> "probe", obj |-> obj],
+  \o << [op |-> "marshal", obj |-> obj, buf |-> "b2"],
+        [op |-> "probe", obj |-> obj],
         [op |-> "verify", obj |-> obj, verifiers |-> [j \in 1..Len(vl) |-> Vf(vl[j])]] @@ X >>
 
 \* wire images that must be refused: no signatures, an empty signature in some slot
